@@ -244,9 +244,9 @@ func (w *World) instrWrites(in ssa.Instruction, ws *WriteSet, g *Gen) {
 			}
 		}
 	case *ssa.Call:
-		w.callWrites(x.Common(), ws, g)
+		w.callWrites(x.Common(), ws, g, x.Parent())
 	case *ssa.Defer:
-		w.callWrites(&x.Call, ws, g)
+		w.callWrites(&x.Call, ws, g, x.Parent())
 	case *ssa.Go:
 		// the spawned goroutine's writes are interference, not part of the sequential frame
 		if g != nil {
@@ -271,6 +271,9 @@ func (w *World) instrWrites(in ssa.Instruction, ws *WriteSet, g *Gen) {
 
 func (w *World) interferenceWrites(ws *WriteSet, g *Gen) {
 	ws.Yields = true
+	if _, ok := w.specs.Ghosts["causeOk"]; ok {
+		ws.add("G.causeOk", ArrSort(SInt, SBool))
+	}
 	for key, ann := range w.specs.FieldAnn {
 		if ann["shared"] == "" {
 			continue
@@ -378,7 +381,7 @@ func (w *World) ptrWrites2(addr ssa.Value, ws *WriteSet) {
 	ws.add(cellVar(pt), ArrSort(SInt, sortOf(pt)))
 }
 
-func (w *World) callWrites(c *ssa.CallCommon, ws *WriteSet, g *Gen) {
+func (w *World) callWrites(c *ssa.CallCommon, ws *WriteSet, g *Gen, encl *ssa.Function) {
 	if b, ok := c.Value.(*ssa.Builtin); ok {
 		switch b.Name() {
 		case "append", "copy":
@@ -422,13 +425,14 @@ func (w *World) callWrites(c *ssa.CallCommon, ws *WriteSet, g *Gen) {
 			}
 		}
 	} else {
-		// dynamic: resolved through ParamSpecs of the enclosing function, if any
-		if g != nil {
-			t := g.resolveCallee(c)
-			if t.contract != nil {
-				ct, fn, key = t.contract, t.fn, t.key
-			} else if t.fn != nil {
-				fn, key = t.fn, t.key
+		// dynamic: resolved through ParamSpecs of the enclosing function's contract, if any
+		if encl != nil {
+			if ec := w.specs.Contracts[funcKey(encl)]; ec != nil {
+				if k, ok := ec.ParamSpecs[dynCalleeName(c)]; ok {
+					key = k
+					fn = w.funcs[k]
+					ct = w.specs.Contracts[k]
+				}
 			}
 		}
 		if ct == nil && fn == nil {
@@ -926,7 +930,7 @@ func (g *Gen) frameObligations(exit *Heap, guard string, pos string) {
 			continue
 		}
 		if strings.HasPrefix(n, "G.") {
-			if gd := g.specs.Ghosts[n[2:]]; gd != nil && gd.Monotone {
+			if gd := g.specs.Ghosts[n[2:]]; gd != nil && (gd.Monotone || gd.Name == "causeOk") {
 				continue // latches are set by other goroutines at any time (rely); never framed
 			}
 		}
